@@ -98,6 +98,7 @@ type lexer struct {
 	col       int
 	prevCol   int
 	tokLine   int
+	lb        bool // linebreak has been called since the last token
 	pos       ast.Pos
 	last      atomic.Value
 }
@@ -912,6 +913,7 @@ func (l *lexer) scanRawToken() int {
 	tok := l.rawToken()
 	if tok > 0 && tok != '\n' {
 		l.tokLine = l.line
+		l.lb = false
 	}
 	return tok
 }
@@ -1169,6 +1171,9 @@ func (l *lexer) scanQuote(r rune) bool {
 				},
 			}
 			l.word = append(l.word, q)
+		} else if l.tokLine == l.line-1 && !l.lb {
+			// line continuation: the line of the last token goes on
+			l.tokLine = l.line
 		}
 	case '\'':
 		// single-quotes
@@ -1584,6 +1589,7 @@ func (l *lexer) scanCmdSubst(r rune) bool {
 
 func (l *lexer) linebreak() bool {
 	var hash bool
+	l.lb = true
 	for {
 		r, err := l.read()
 		if err != nil {
@@ -1696,6 +1702,7 @@ func (l *lexer) emit(typ int) {
 		}
 	}
 	l.word = nil
+	l.lb = false
 	if typ != '\n' {
 		l.tokLine = l.line
 	}
